@@ -627,7 +627,8 @@ def simplifiers(op):
 
 def required_probes(prop, tier):
     return ['failed_load', 'valid_load_after_failed_load', 'load_refused_while_set', 'mutate_refused',
-            'read_refused_unset', 'reset']
+            'read_refused_unset', 'reset', 'load_with_warnings_as_errors', 'relocate',
+            'load_with_relative_search_path']
 
 
 def evidence_info(prop):
@@ -639,7 +640,9 @@ def evidence_info(prop):
         'time_note': 'no clock involved',
         'components': {
             'real': ['AEIC.config (Config, ConfigProxy, pydantic validation)', 'tomllib', 'real files in a per-run sandbox'],
-            'simulated': ['os.stat / open under the sandbox and the packaged default files (pass-through + injected EIO/EACCES)'],
+            'simulated': ['os.stat / open under the sandbox and the packaged default files (pass-through + injected EIO/EACCES)',
+                          'warnings filter (loads with warnings turned into errors)',
+                          'working directory and a relative AEIC_PATH (op relocate, optionally removing the old project)'],
         },
         'fault_kinds': ['EIO', 'EACCES'],
         'assumptions': ['in-place mutation of list objects obtained from the configuration is aliasing, not checked',
